@@ -437,10 +437,19 @@ class G:
         rotated = len(conts) >= 2 and nv >= 3 and r.random() < 0.4
         heads = r.sample(conts, 2 if rotated else 1)
         for h in heads:
-            if r.random() < 0.85:
+            if r.random() < 0.75:
                 m.vars[h]['lb'] = Fr(0); m.vars[h]['ub'] = Fr(r.randint(1, 16), 4)
+            elif r.random() < 0.5:
+                m.vars[h]['lb'] = Fr(-r.randint(1, 8), 4); m.vars[h]['ub'] = Fr(r.randint(0, 12), 4)
         others = [j for j in range(nv) if j not in heads]
         tail = r.sample(others, r.randint(1, len(others)))
+        for j in tail:                       # tails usually straddle 0, so that the apex region of the cone is inside the domain
+            v = m.vars[j]
+            if v['type'] != 'b' and r.random() < 0.6:
+                if v['type'] == 'i':
+                    v['lb'], v['ub'] = Fr(-r.randint(0, 2)), Fr(r.randint(0, 2))
+                else:
+                    v['lb'], v['ub'] = Fr(-r.randint(0, 8), 4), Fr(r.randint(0, 8), 4)
         coef = lambda: r.choice([Fr(1), Fr(1), Fr(4), Fr(1, 4), Fr(2), Fr(9, 4), Fr(3)])
         def sq(c, j, k=None):
             t = ('*', ('v', j), ('v', j if k is None else k))
